@@ -85,6 +85,7 @@ type Fail struct {
 	Exp   any      `json:"exp,omitempty"`
 	Got   any      `json:"got,omitempty"`
 	Step  int      `json:"step"`
+	Case  *AdvCase `json:"case,omitempty"`
 }
 
 type World struct {
